@@ -785,5 +785,8 @@ pub fn run(tier: Tier) -> i32 {
     if after > before && rep.observations.is_empty() {
         rep.observe(format!("{} panic(s) were counted by the process-wide hook during the run", after - before));
     }
+    for front in ["socks5", "http"] {
+        crate::cworld::front_end_app_abort_pass(&mut rep, front, "C20:sibling-connection-cut-by-another-connections-reset");
+    }
     rep.finish("IX: single frames over all 256 command bytes x 4 ids x 9 payloads (settings, garbage, invalid UTF-8, 65535 bytes, hostile scheme texts, long multi-byte texts; valid scheme / settings / error texts with one byte replaced by 0xff or 0xc3 at every offset) and all pairs over a reduced alphabet, both roles; every bit flip (first 160 bytes), truncation, frame duplication, adjacent swap and length-field corruption of a recorded conversation in both directions; destination / UDP parsers on all 256 type bytes x lengths x truncations; HTTP header blocks with multi-byte characters at every offset and degenerate targets; LX: malformed input on both front-ends followed by a well-formed sibling request, header blocks that never end (1 MiB of LF-free or terminator-free input against the 64 KiB limit), and connections stalling with incomplete input (held open) on both front-end listeners and the server's TLS listener while a sibling request arrives; oracle: no panic, no spin, and afterwards a well-formed exchange works or the session closed cleanly; non-trivial = distinct case")
 }
